@@ -10,6 +10,8 @@ suite=$(cargo test --workspace --no-fail-fast --offline 2>&1 | grep -E "^test re
 suite_fail=$(cargo test --workspace --no-fail-fast --offline 2>&1 | grep -cE "^test result: FAILED|error(\[|:)")
 cp "$S/demo.rs" tests/seed_demo.rs
 printf '\n[[test]]\nname = "seed_demo"\npath = "tests/seed_demo.rs"\n' >> Cargo.toml
+# a demonstration that must run on the main thread (signal masks) says so in its header
+grep -q "harness = false" "$S/demo.rs" && printf 'harness = false\n' >> Cargo.toml
 timeout 900 cargo test --offline --features "block_on executor signals stream futures-io" --test seed_demo >"$S/verify_with.log" 2>&1; with=$?
 git apply -R "$P"
 timeout 900 cargo test --offline --features "block_on executor signals stream futures-io" --test seed_demo >"$S/verify_without.log" 2>&1; without=$?
